@@ -30,7 +30,7 @@ Proof.
   destruct (mstep (w_m w) q) as [m1 r1] eqn:E.
   assert (Hr : r1 <> RError -> Ok (mkWorld m1 ((q, r1) :: w_log w), r1) = Ok (w', r) ->
                extends w w' [q] /\ r = r1 /\ r <> RError /\ w_m w' = m1).
-  { intros Hne Heq. inversion Heq; subst. repeat split; try assumption.
+  { intros Hne Heq. inversion Heq; subst. split; [split|repeat split; assumption].
     - unfold sent. cbn [w_log map rev fst]. reflexivity.
     - cbn [w_m replay]. rewrite E. reflexivity. }
   cbn [fst snd]. destruct r1; try discriminate; apply Hr; try exact H; discriminate.
@@ -88,15 +88,107 @@ Proof. intros. unfold mstep. cbn [q_x q_y q_cmd q_a1 q_a2]. destruct (dest_chip 
 Lemma mread_length : forall m cs a l, zlen (mread m cs a l) = Z.max 0 l.
 Proof. intros. unfold mread, zlen. rewrite map_length, seq_length. lia. Qed.
 
-Lemma mread_app : forall m cs a l1 l2, 0 <= l1 -> 0 <= l2 ->
-  mread m cs a (l1 + l2) = mread m cs a l1 ++ mread m cs (a + l1) l2.
+Lemma read_loop_done : forall fuel w x y p a buffer acc,
+  read_loop fuel w x y p a 0 buffer acc = Ok (w, acc).
+Proof. intros. destruct fuel; reflexivity. Qed.
+
+(* a read that fits the buffer is one command; it leaves the machine alone and returns its memory *)
+Lemma read_inv : forall c w x y p addr len c' w' d,
+  ctrl_wf c (w_m w) -> 0 < len <= m_buffer (w_m w) ->
+  read c w x y p addr len = Ok (c', w', d) ->
+  w_m w' = w_m w /\ c_buffer c' = Some (m_buffer (w_m w)) /\ c_nn c' = c_nn c
+  /\ (exists xy ch, dest_chip (w_m w) x y = Some (xy, ch) /\ d = mread (w_m w) (ch_cores ch) addr len)
+  /\ (exists pre q, (pre = [] \/ pre = [sver_pkt]) /\ extends w w' (pre ++ [q]) /\ is_read q
+                    /\ q_x q = x /\ q_y q = y).
 Proof.
-  intros m cs a l1 l2 H1 H2. unfold mread. rewrite Z2Nat.inj_add by assumption.
-  rewrite seq_app, map_app. f_equal. cbn [Nat.add].
-  rewrite <- (seq_shift_by (Z.to_nat l1)) || idtac.
-  replace (seq (Z.to_nat l1) (Z.to_nat l2)) with (map (fun i => (Z.to_nat l1 + i)%nat) (seq 0 (Z.to_nat l2))).
-  - rewrite map_map. apply map_ext. intros i. f_equal. lia.
-  - clear. generalize (Z.to_nat l1) as k. intros k. generalize 0%nat as s. induction (Z.to_nat l2) as [|n IH]; intros s.
-    + reflexivity.
-    + cbn [seq map]. rewrite IH. f_equal. lia.
+  intros c w x y p addr len c' w' d Hc Hlen H. unfold read in H.
+  apply bind_ok in H. destruct H as [[[c1 w1] b] [Hg H]].
+  apply get_buffer_inv in Hg; [|exact Hc]. destruct Hg as (Hb & Hcb & Hcn & Hm1 & Hext).
+  destruct (b <=? 0) eqn:Eb; [apply Z.leb_le in Eb; lia|].
+  apply bind_ok in H. destruct H as [[w2 d2] [Hl H]]. inversion H; subst c' w' d. clear H.
+  cbn [read_loop] in Hl.
+  destruct (len >? 0) eqn:El; [|rewrite Z.gtb_ltb in El; apply Z.ltb_ge in El; lia].
+  rewrite Z.min_l in Hl by lia.
+  destruct (dtype_lookup (addr mod 4, len mod 4) address_length_dtype) as [dt|]; [|discriminate].
+  apply bind_ok in Hl. destruct Hl as [[w3 r] [Hs Hl]]. cbn [fst snd] in Hl.
+  apply send_inv in Hs. destruct Hs as (He & Hr & Hne & Hm3).
+  rewrite mstep_read in Hr, Hm3. rewrite Hm1 in Hr, Hm3.
+  destruct (dest_chip (w_m w) x y) as [[xy ch]|] eqn:Ed; [|subst r; congruence].
+  destruct (len >? m_buffer (w_m w)) eqn:Eg; [subst r; congruence|].
+  cbn [fst snd] in Hr, Hm3. subst r.
+  destruct (zlen (mread (w_m w) (ch_cores ch) addr len) =? len) eqn:Ez; [|discriminate].
+  rewrite Z.sub_diag, read_loop_done in Hl. inversion Hl; subst w2 d2. cbn [app].
+  repeat split; try assumption.
+  - exists xy, ch. split; reflexivity.
+  - destruct Hext as [Hext|Hext].
+    + exists [], (mkPkt x y p SCPCommands_read addr len dt []). repeat split; try reflexivity.
+      * left. reflexivity.
+      * apply (extends_trans _ _ _ _ _ Hext He).
+      * apply (extends_trans _ _ _ _ _ Hext He).
+    + exists [sver_pkt], (mkPkt x y p SCPCommands_read addr len dt []). repeat split; try reflexivity.
+      * right. reflexivity.
+      * apply (extends_trans _ _ _ _ _ Hext He).
+      * apply (extends_trans _ _ _ _ _ Hext He).
+Qed.
+
+(* ---------------------------------------------------------------- the memory the loader reads *)
+Lemma of_le32_le32 : forall v, 0 <= v < 2 ^ 32 -> of_le32 (le32 v) = Some v.
+Proof.
+  intros v Hv. change (2 ^ 32) with 4294967296 in Hv. unfold le32, of_le32. f_equal. lia.
+Qed.
+
+Lemma seq4 : seq 0 (Z.to_nat 4) = [0; 1; 2; 3]%nat.
+Proof. reflexivity. Qed.
+
+Lemma mread_sdram_sys : forall m cs, mread m cs (sv_base + sv_sdram_sys_offset) 4 = le32 (m_base m).
+Proof.
+  intros m cs. unfold mread. rewrite seq4. cbn [map]. unfold mem_byte.
+  change (sv_base + sv_sdram_sys_offset) with 4110450632.
+  change (SV_BASE + SV_SDRAM_SYS) with 4110450632.
+  cbn [Z.of_nat Z.add Pos.add Pos.succ Z.leb Z.ltb Z.compare Pos.compare Pos.compare_cont andb Pos.of_succ_nat].
+  reflexivity.
+Qed.
+
+Lemma mread_vcpu_base : forall m cs, mread m cs (sv_base + sv_vcpu_base_offset) 4 = le32 (m_vcpu m).
+Proof.
+  intros m cs. unfold mread. rewrite seq4. cbn [map]. unfold mem_byte.
+  change (sv_base + sv_vcpu_base_offset) with 4110450636.
+  change (SV_BASE + SV_SDRAM_SYS) with 4110450632. change (SV_BASE + SV_VCPU_BASE) with 4110450636.
+  cbn [Z.of_nat Z.add Pos.add Pos.succ Z.leb Z.ltb Z.compare Pos.compare Pos.compare_cont andb Pos.of_succ_nat].
+  reflexivity.
+Qed.
+
+Lemma mread_cpu_state : forall m cs p,
+  (m_vcpu m + VCPU_SIZE * N_CORES <= SV_BASE \/ SV_BASE + 256 <= m_vcpu m) -> 0 <= p < 18 ->
+  mread m cs (m_vcpu m + vcpu_size * p + vcpu_cpu_state_offset) vcpu_cpu_state_size =
+  [match nth_error cs (Z.to_nat p) with Some c => cs_state c mod 256 | None => 0 end].
+Proof.
+  intros m cs p Hlay Hp. unfold mread. change (Z.to_nat vcpu_cpu_state_size) with 1%nat. cbn [seq map].
+  f_equal. unfold mem_byte. unfold VCPU_SIZE, N_CORES, SV_BASE, SV_SDRAM_SYS, SV_VCPU_BASE in *.
+  change vcpu_size with 128. change vcpu_cpu_state_offset with 46. cbn [Z.of_nat]. rewrite Z.add_0_r.
+  destruct ((4110450432 + 200 <=? m_vcpu m + 128 * p + 46) && (m_vcpu m + 128 * p + 46 <? 4110450432 + 200 + 4)) eqn:E1.
+  { apply andb_prop in E1. destruct E1 as [A B]. apply Z.leb_le in A. apply Z.ltb_lt in B. lia. }
+  destruct ((4110450432 + 204 <=? m_vcpu m + 128 * p + 46) && (m_vcpu m + 128 * p + 46 <? 4110450432 + 204 + 4)) eqn:E2.
+  { apply andb_prop in E2. destruct E2 as [A B]. apply Z.leb_le in A. apply Z.ltb_lt in B. lia. }
+  destruct ((m_vcpu m <=? m_vcpu m + 128 * p + 46) && (m_vcpu m + 128 * p + 46 <? m_vcpu m + 128 * 18)) eqn:E3.
+  - assert (Hq : (m_vcpu m + 128 * p + 46 - m_vcpu m) / 128 = p) by lia.
+    assert (Hr : (m_vcpu m + 128 * p + 46 - m_vcpu m) mod 128 = 46) by lia.
+    rewrite Hq, Hr. destruct (nth_error cs (Z.to_nat p)); reflexivity.
+  - apply andb_false_iff in E3. destruct E3 as [A|A]; [apply Z.leb_gt in A|apply Z.ltb_ge in A]; lia.
+Qed.
+
+(* read_struct_field("sv", ..) / read_vcpu_struct_field("cpu_state", ..) *)
+Lemma read_sv_word_inv : forall c w off x y c' w' v,
+  ctrl_wf c (w_m w) -> machine_wf (w_m w) ->
+  read_sv_word c w off x y = Ok (c', w', v) ->
+  w_m w' = w_m w /\ c_buffer c' = Some (m_buffer (w_m w)) /\ c_nn c' = c_nn c
+  /\ (exists xy ch, dest_chip (w_m w) x y = Some (xy, ch) /\ of_le32 (mread (w_m w) (ch_cores ch) (sv_base + off) 4) = Some v)
+  /\ (exists pre q, (pre = [] \/ pre = [sver_pkt]) /\ extends w w' (pre ++ [q]) /\ is_read q /\ q_x q = x /\ q_y q = y).
+Proof.
+  intros c w off x y c' w' v Hc Hm H. unfold read_sv_word in H.
+  apply bind_ok in H. destruct H as [[[c1 w1] d] [Hr H]]. cbn [fst snd] in H.
+  destruct Hm as (_ & _ & _ & _ & _ & Hbuf & _).
+  apply read_inv in Hr; [|exact Hc|lia]. destruct Hr as (Hm1 & Hcb & Hcn & (xy & ch & Hd & Hdata) & Hq).
+  destruct (of_le32 d) as [v0|] eqn:Ev; [|discriminate]. inversion H; subst.
+  repeat split; try assumption. exists xy, ch. split; [exact Hd|exact Ev].
 Qed.
